@@ -22,7 +22,7 @@ import vxbuild    # noqa: E402
 import rewrites   # noqa: E402
 
 REPO = os.environ.get('VERIF_REPO', '/repo')
-BUILD = os.path.join(ROOT, 'build')
+BUILD = os.path.join(ROOT, 'build') if REPO == '/repo' else os.path.join(ROOT, 'build', 'alt_' + hashlib.md5(REPO.encode()).hexdigest()[:8])
 CACHE = os.path.join(ROOT, '.cache')
 VERUS = os.environ.get('VERIF_VERUS', 'verus')
 THREADS = int(os.environ.get('VERIF_THREADS', '8'))
@@ -70,13 +70,13 @@ class FnInfo:
         self.repo_lines = 0
 
 
-def build_unit(unit, cfgs=(), repo=None):
+def build_unit(unit, cfgs=(), repo=None, drop_disturbed=False):
     repo = repo or REPO
     path = os.path.join(ROOT, 'contracts', unit + '.rs')
-    b = vxbuild.build(path, repo, cfgs)
+    b = vxbuild.build(path, repo, cfgs, drop_disturbed)
     os.makedirs(BUILD, exist_ok=True)
     tag = unit + ('@' + '+'.join(cfgs) if cfgs else '')
-    out = os.path.join(BUILD, tag.replace('@', '__') + '.rs')
+    out = os.path.join(BUILD, tag.replace('@', '__') + ('__nohints' if drop_disturbed else '') + '.rs')
     text = '\n'.join(b.lines)
     tmp = out + '.%d.tmp' % os.getpid()
     with open(tmp, 'w') as f:
@@ -396,9 +396,9 @@ def map_findings(b, res, fns):
     return out
 
 
-def run_unit(unit, cfgs=(), rlimit=None, only_fn=None, repo=None, extra=()):
+def run_unit(unit, cfgs=(), rlimit=None, only_fn=None, repo=None, extra=(), drop_disturbed=False):
     """Build + verify.  Returns dict with build info, function table, findings, per-fn SMT times."""
-    b = build_unit(unit, cfgs, repo)
+    b = build_unit(unit, cfgs, repo, drop_disturbed)
     fns = fn_table(b.text)
     res = cached_verus(b.path, b.text, rlimit, only_fn, extra)
     findings = map_findings(b, res, fns)
@@ -414,7 +414,7 @@ def run_unit(unit, cfgs=(), rlimit=None, only_fn=None, repo=None, extra=()):
     except Exception:
         pass
     vr = js.get('verification-results', {}) if js else {}
-    return {'unit': unit, 'tag': b.tag, 'build': b, 'fns': fns, 'res': res, 'findings': findings,
+    return {'unit': unit, 'tag': b.tag, 'build': b, 'hints_dropped': drop_disturbed, 'fns': fns, 'res': res, 'findings': findings,
             'smt_s': times, 'fn_ok': ok, 'verified': vr.get('verified'), 'errors': vr.get('errors'),
             'vir_error': vr.get('encountered-vir-error'),
             'completed': bool(js) and not vr.get('encountered-vir-error') and vr.get('verified') is not None}
